@@ -32,7 +32,7 @@ CLIENT_APIS = ("recv", "recv_stderr", "sendall", "sendall_stderr", "send", "exec
                "auth_password", "auth_publickey", "auth_interactive", "auth_none",
                "srt_auth_password", "srt_auth_publickey", "srt_auth_none", "start_client")
 SERVER_APIS = ("accept_none", "accept_timeout", "server_recv", "server_sendall", "start_server", "server_renegotiate")
-LOSSES = ("peer-close", "link-eof", "link-reset", "local-close", "garbage-then-eof", "peer-disconnect")
+LOSSES = ("peer-close", "link-eof", "link-reset", "link-error-one-arg", "local-close", "garbage-then-eof", "peer-disconnect")
 PHASES = ("blocked-first", "racing", "after")
 PROXY_APIS = ("recv", "exec_command", "open_session", "global_request", "sendall", "auth_password", "recv_exit_status")
 PROXY_CASES = [("proxy:" + a, "proxy-exit", ph) for a in PROXY_APIS for ph in ("blocked-first", "racing", "after")]
@@ -297,6 +297,9 @@ def scenario(sim):
             link.cut(0 if victim_role == "server" else 1, "eof")
         elif loss == "link-reset":
             link.cut(0 if victim_role == "server" else 1, "reset")
+        elif loss == "link-error-one-arg":
+            # a socket-like object that reports the loss as OSError("...") without an errno
+            link.cut(0 if victim_role == "server" else 1, "reset1")
         elif loss == "local-close":
             victim.close()
         elif loss == "garbage-then-eof":
